@@ -54,7 +54,8 @@ def sample : List Char := "f x =\n    y = x + 1 # old\n    y * \"a\\tb\"\nz = f 
 theorem C10_witness_invariant :
     rewriteCmp .comment 5 sample = some .same ∧ rewriteCmp .spaces 5 sample = some .same ∧
     rewriteCmp .cont 15 sample = some .same ∧ rewriteCmp .mlcomment 16 sample = some .same ∧
-    rewriteCmp .blank 6 sample = some .sameModNewlines ∧ rewriteCmp .commentline 26 sample = some .sameModNewlines := by
+    rewriteCmp (.blank 3) 6 sample = some .sameModNewlines ∧ rewriteCmp (.commentline 2) 26 sample = some .sameModNewlines ∧
+    rewriteCmp (.commentlinep 3) 6 sample = some .sameModNewlines := by
   decide +kernel
 
 /-- recorded finding C10-space-after-ml-comment: `#[ c ]#` followed by a space makes the lexer report `invalid character: ' '` -/
@@ -65,5 +66,17 @@ theorem C10_witness_comment_line_dedent : rewriteCmp .commentline0 26 sample = s
 
 /-- recorded finding C10-continuation-after-operator: `+` directly followed by backslash-newline becomes a prefix operator -/
 theorem C10_witness_continuation_operator : rewriteCmp .cont0 17 sample = some .diff := by decide +kernel
+
+/-- recorded finding C10-whitespace-only-line: three spaces on an empty line are lexed as an Indent -/
+theorem C10_witness_whitespace_only_line :
+    rewriteCmp .spaces 6 "x = 1\n\ny = 2\n".toList = some .diff ∧ findingClass .spaces 6 "x = 1\n\ny = 2\n".toList = "C10-whitespace-only-line" := by
+  decide +kernel
+
+/-- recorded finding C10-blank-after-class-opener: at the lexer level a blank line after `C.` is harmless (only Newline tokens are
+    added); the parser's `try_reduce_class_attr_defs` then rejects the extra Newline — the class predicate selects exactly this place -/
+theorem C10_witness_blank_after_class_opener :
+    rewriteCmp (.blank 1) 24 "C = Class {.a = Int}\nC.\n    m self = 1\n".toList = some .sameModNewlines ∧
+      findingClass (.blank 1) 24 "C = Class {.a = Int}\nC.\n    m self = 1\n".toList = "C10-blank-after-class-opener" := by
+  decide +kernel
 
 end ErgVerif.C10
